@@ -287,6 +287,14 @@ pub fn spaces(tier: Tier) -> Vec<Space<'static>> {
         acc.nontrivial += 1;
         float_one(f, acc);
     }));
+    {
+        let u = refmodel::gen::d3e_uni();
+        let n = u.count(3);
+        sp.push(Space::new("d3e (depth 3 over {\"\", 1}: empty strings nested at every level)", n, move |i, acc| {
+            let v = u.nth(3, i);
+            check_value(&v, acc, true)
+        }));
+    }
     sp.push(Space::new("wide (4-6 siblings over 5 kinds)", refmodel::gen::wide_count(), |i, acc| crate::checks::scale::wide_deep_doc(&refmodel::gen::wide_nth(i), acc, 1)));
     sp.push(Space::new("deep (4-6 levels, 5 sibling patterns per level)", refmodel::gen::deep_count(), |i, acc| crate::checks::scale::wide_deep_doc(&refmodel::gen::deep_nth(i), acc, 1)));
     {
